@@ -209,6 +209,19 @@ def forms_program():
     )
     F.append(
         fn(
+            # a slice store: the bounds are expressions of the function, evaluated once, after the value
+            "slicestore",
+            ["p"],
+            [
+                ["bind", "o", ["obj"]],
+                ["bind", ["sub", "o", ["slc", V, ["add", var("p"), V]]], V],
+                ["bind", "w", V],
+                ["ret", var("w")],
+            ],
+        )
+    )
+    F.append(
+        fn(
             "walrus",
             ["p"],
             [
